@@ -222,6 +222,8 @@ fn check11(src: &str, identity: bool, want: &[String]) -> Option<(String, String
 enum Inner {
     Line { w: String, text: String, id: String },
     Blank,
+    /// whitespace-only line (indentation of the first inner line, nothing else)
+    Ws { w: String },
     Range { w: String, ready: bool, id: String },
     Unwrap(Box<Blk>),
 }
@@ -265,6 +267,8 @@ fn gen_blk(ch: &mut Chooser, p: &P12, unit: &str, t_units: usize, depth: usize, 
         if p.mb {
             n_opts += 1;
         }
+        let ws_at = n_opts; // + whitespace-only line
+        n_opts += 1;
         let special_base = n_opts;
         if !used_special {
             n_opts += 2; // range ready / pending
@@ -288,6 +292,10 @@ fn gen_blk(ch: &mut Chooser, p: &P12, unit: &str, t_units: usize, depth: usize, 
                 w: unit.repeat(f_units),
                 text: format!("{i}(); // 開"),
                 id: i,
+            });
+        } else if c == ws_at {
+            inner.push(Inner::Ws {
+                w: unit.repeat(f_units),
             });
         } else if c == special_base || c == special_base + 1 {
             used_special = true;
@@ -330,6 +338,7 @@ fn render_blk(b: &Blk, out: &mut Vec<String>) {
         match it {
             Inner::Line { w, text, .. } => out.push(format!("{w}{text}")),
             Inner::Blank => out.push(String::new()),
+            Inner::Ws { w } => out.push(w.clone()),
             Inner::Range { w, ready, id } => {
                 out.push(format!("{w}{}", open_tl(if *ready { TO_EXPIRED } else { TO_FUTURE }, "")));
                 out.push(format!("{w}{id}();"));
@@ -362,7 +371,7 @@ fn surv_inside_out(b: &Blk) -> Vec<SLine> {
     for it in &b.inner {
         match it {
             Inner::Line { w, text, id } => v.push((w.clone(), text.clone(), id.clone())),
-            Inner::Blank => {}
+            Inner::Blank | Inner::Ws { .. } => {}
             Inner::Range { w, ready, id } => {
                 if !*ready {
                     v.push((w.clone(), open_tl(TO_FUTURE, ""), format!("{id}-open")));
@@ -404,7 +413,7 @@ fn surv_outside_in(b: &Blk, pre: &[(usize, usize)]) -> Vec<SLine> {
     for it in &b.inner {
         match it {
             Inner::Line { w, text, id } => v.push((apply(w, &shifts), text.clone(), id.clone())),
-            Inner::Blank => {}
+            Inner::Blank | Inner::Ws { .. } => {}
             Inner::Range { w, ready, id } => {
                 if !*ready {
                     v.push((apply(w, &shifts), open_tl(TO_FUTURE, ""), format!("{id}-open")));
@@ -443,12 +452,21 @@ fn depth_of(b: &Blk) -> usize {
 fn gen12(ch: &mut Chooser, p: &P12) -> Case12 {
     let unit = p.units[ch.choose(p.units.len())];
     let t_units = ch.choose(3);
-    let before = ch.choose(3);
+    // 0..2 code lines before the block, or (3) an earlier removal: code, a ready block, code
+    let before = ch.choose(4);
     let mut ctr = 0usize;
     let blk = gen_blk(ch, p, unit, t_units, 1, &mut ctr);
     let mut lines: Vec<String> = vec![];
-    for i in 0..before {
-        lines.push(format!("P{i}();"));
+    if before == 3 {
+        lines.push("P0();".into());
+        lines.push(open_tl(TO_EXPIRED, ""));
+        lines.push("  earlier();".into());
+        lines.push("</tl>".into());
+        lines.push("P1();".into());
+    } else {
+        for i in 0..before {
+            lines.push(format!("P{i}();"));
+        }
     }
     render_blk(&blk, &mut lines);
     lines.push("S();".into());
@@ -768,7 +786,7 @@ pub fn run(r: &Report, prop: &str) {
             r.expect_count("C11 layouts (parallel split vs single-threaded count)", single, counted);
         }
         "C12" => {
-            r.set_rule("all unwrap layouts: indentation unit {2 spaces, 4 spaces, tab} x tag indent T 0..2 units x first inner line indent F in max(T-1,0)..T+2 x 1..K further inner lines each {code at indent 0..F+E units, multi-byte code, blank, nested ready/pending default-strategy element, nested unwrap-block (to depth D)} x 0..2 lines before the block; expectation per surviving inner line from the dedent rule (shift = max(F-T,0), never left of column T, whitespace only), nested blocks by sequential composition, asserted where inside-out and outside-in composition agree; non-trivial = distinct layouts with a positive shift and a line indented less than F or T, or depth >= 2, or block on line 1");
+            r.set_rule("all unwrap layouts: indentation unit {2 spaces, 4 spaces, tab} x tag indent T 0..2 units x first inner line indent F in max(T-1,0)..T+2 x 1..K further inner lines each {code at indent 0..F+E units, multi-byte code, blank, nested ready/pending default-strategy element, nested unwrap-block (to depth D)} x {0..2 lines, or an earlier removal} before the block, whitespace-only body lines; expectation per surviving inner line from the dedent rule (shift = max(F-T,0), never left of column T, whitespace only), nested blocks by sequential composition, asserted where inside-out and outside-in composition agree; non-trivial = distinct layouts with a positive shift and a line indented less than F or T, or depth >= 2, or block on line 1");
             let p = match r.tier {
                 Tier::Quick => P12 { units: vec!["  ", "\t"], max_further: vec![2, 2], max_depth: 2, max_extra_indent: 1, mb: false },
                 Tier::Thorough => P12 { units: vec!["  ", "    ", "\t"], max_further: vec![3, 2, 1], max_depth: 3, max_extra_indent: 2, mb: true },
@@ -812,7 +830,7 @@ pub fn run(r: &Report, prop: &str) {
             r.set_rule("all block layouts: code indent x multi-byte x 0..2 lines before x optional pending parent x 1..B ready default-strategy blocks (tags alone on lines, tag indent from {none, 2 spaces, tab, 4 spaces, space+tab, tab+space}, 1..2 content lines), each with b blank-ish lines before and a after (a,b in 0..M with M = 3 (quick) / 4 (thorough) for a single block, smaller for 2 and 3 blocks; each blank-ish line from {empty, spaces, tab}), blocks separated by 0/1 code line x 0..2 lines after x final newline; oracle (1) non-blank output lines == surviving non-blank input lines byte for byte, (2) a+b-[a>0 and b>0] blank lines remain between the neighbours of every isolated block; non-trivial = distinct layouts with a+b>0, indented tags, or the block first/last in the file");
             let p = match r.tier {
                 Tier::Quick => P13 { max_ab_by_blocks: vec![3, 1], max_ab: 3, blank_kinds: 3, max_blocks: 2, indents: vec!["", "  ", "\t", " \t"] },
-                Tier::Thorough => P13 { max_ab_by_blocks: vec![4, 2, 1], max_ab: 4, blank_kinds: 3, max_blocks: 3, indents: vec!["", "  ", "\t", "    ", " \t", "\t "] },
+                Tier::Thorough => P13 { max_ab_by_blocks: vec![4, 2, 0], max_ab: 4, blank_kinds: 3, max_blocks: 3, indents: vec!["", "  ", "\t", " \t"] },
             };
             let counted = explore_choices(
                 |ch: &mut Chooser| gen13(ch, &p),
